@@ -628,6 +628,10 @@ type equivSys struct {
 	gotS, gotD sets.String
 	// the responses delivered to the two clients during the last op, in delivery order: type/resources/removed
 	traceS, traceD []string
+	// case flags (C05): deltaCds = the CDS generator is delta-aware (always in stream equivd; flag d elsewhere);
+	// nilFound (flag z) = a found-only generator (SDS, ECDS) returns nil - not an empty list - when none of the
+	// watched names exists, as a generator that has nothing to say does: nothing is sent at all
+	deltaCds, nilFound bool
 }
 
 var genClass = map[string]string{
@@ -645,8 +649,10 @@ func isWildcardType(short string) bool {
 	return true
 }
 
-func newEquiv(mode string) *equivSys {
+func newEquiv(mode string, flags ...string) *equivSys {
+	fl := strings.Join(flags, "")
 	e := &equivSys{
+		deltaCds: mode == "equivd" || strings.Contains(fl, "d"), nilFound: strings.Contains(fl, "z"),
 		mode: mode, world: map[string]map[string]int{}, pending: map[string]map[string]int{},
 		changed: map[string]sets.String{}, sc: newClient(), dc: newClient(),
 	}
@@ -655,7 +661,7 @@ func newEquiv(mode string) *equivSys {
 		e.pending[t] = map[string]int{}
 		e.changed[t] = sets.New[string]()
 	}
-	e.sut = newSUT(e.worldGen, map[string]bool{"CDS": mode == "equivd"})
+	e.sut = newSUT(e.worldGen, map[string]bool{"CDS": e.deltaCds})
 	return e
 }
 
@@ -674,7 +680,7 @@ func (e *equivSys) worldGen(short string, w *model.WatchedResource, req *model.P
 	watched := sets.SortedList(w.ResourceNames)
 	switch genClass[short] {
 	case "wild":
-		if viaDelta && e.mode == "equivd" && short == "CDS" && !req.Forced {
+		if viaDelta && e.deltaCds && short == "CDS" && !req.Forced {
 			// delta-aware: changed resources; watched names that no longer exist are deleted
 			o.used, o.delNil = true, false
 			for _, n := range sets.SortedList(e.changed[short]) {
@@ -698,6 +704,9 @@ func (e *equivSys) worldGen(short string, w *model.WatchedResource, req *model.P
 			if v, ok := world[n]; ok {
 				o.res = append(o.res, res{n, v})
 			}
+		}
+		if e.nilFound && len(o.res) == 0 {
+			o.resNil = true
 		}
 	}
 	return o
@@ -809,7 +818,7 @@ func (e *equivSys) apply(f []string) (out string) {
 	e.traceS, e.traceD = nil, nil
 	switch f[0] {
 	case "case":
-		*e = *newEquiv(f[2])
+		*e = *newEquiv(f[2], f[3:]...)
 		return "ok"
 	case "world":
 		nw := map[string]int{}
@@ -967,7 +976,24 @@ func genEquiv(stream string, seed uint64, n int, outp string) {
 	root := wire.NewRng(seed ^ 0xC03E)
 	for c := 0; c < n; c++ {
 		r := root.Fork()
-		out.Line("case", strconv.Itoa(c), stream)
+		if stream == "reconn" {
+			// reconnects with the delta-aware CDS generator (a wrong record after the resync is not healed by the next
+			// full push) and with found-only generators that return nil when they have nothing to say
+			flags := ""
+			if r.Chance(1, 3) {
+				flags += "d"
+			}
+			if r.Chance(1, 4) {
+				flags += "z"
+			}
+			if flags == "" {
+				out.Line("case", strconv.Itoa(c), stream)
+			} else {
+				out.Line("case", strconv.Itoa(c), stream, flags)
+			}
+		} else {
+			out.Line("case", strconv.Itoa(c), stream)
+		}
 		types := wire.Subset(r, equivTypes, 1, 2)
 		if len(types) == 0 {
 			types = []string{"CDS", "EDS"}
@@ -1091,6 +1117,16 @@ func oracleLines(stream, in string) []string {
 			// every first request of a type on a stream (initial or re-sent after a reconnect, whatever
 			// nonce / retained state it presents) must be answered: nothing stays warming
 			wants := len(wire.DecList(f[2])) > 0 || isWildcardType(f[1])
+			if e.nilFound && genClass[f[1]] == "found" {
+				// a generator that has nothing to say (nil) sends nothing, on a reconnect as on a brand-new stream: an
+				// answer is owed only when at least one of the names asked for exists
+				wants = false
+				for _, n := range wire.DecList(f[2]) {
+					if _, ok := e.world[f[1]][n]; ok {
+						wants = true
+					}
+				}
+			}
 			if wants && firstS && !e.gotS.Contains(f[1]) {
 				verdict = fmt.Sprintf("FAIL first-request-unanswered op=%d type=%s client=sotw", idx-1, f[1])
 			}
